@@ -148,7 +148,11 @@ func (x *X) generic(rep sched.Report, phase string) {
 		x.Viol("C14", "goroutine-leak", "leak:"+sites(rep.Blocked), "goroutines still blocked after the scenario finished: "+strings.Join(rep.Blocked, ","))
 	}
 	if rep.Overrun {
-		x.R.Infra = "step budget exceeded in " + phase
+		// a very long case (many operations x many steps x automatic yield points), cut off at the
+		// step budget: nothing is concluded from it; counted, so that a change that makes cases run
+		// away shows in the evidence
+		x.R.Skipped = "step-budget"
+		x.Probe("step-budget-exceeded:" + phase)
 	}
 	if rep.BubbleErr != "" && !rep.Deadlock && !rep.Leaked {
 		if strings.Contains(rep.BubbleErr, "deadlock") || strings.Contains(rep.BubbleErr, "blocked goroutines") {
